@@ -25,6 +25,7 @@ type c10params struct {
 	Early   bool // AlwaysAnnounceOnPublish
 	Reject  bool // the callback may return an error
 	Faults  bool // client write failures
+	Attempts bool // between two connections: attempts that end before CONNACK (CONNECT write fails / closed without an answer)
 }
 
 func init() {
@@ -80,7 +81,8 @@ func (s *c10w) conn() *side {
 
 func (s *c10w) connected() bool { cn := s.conn(); return cn != nil && cn.open() }
 
-func (s *c10w) connect() bool {
+// newClient: a fresh Client on the shared session (what an application does to resume)
+func (s *c10w) newClient() {
 	s.c = client.New()
 	s.c.Session = s.sess
 	s.c.Callback = func(msg *packet.Message, err error) error {
@@ -99,6 +101,33 @@ func (s *c10w) connect() bool {
 		s.order = append(s.order, tag)
 		return nil
 	}
+}
+
+// failedAttempt: a connection attempt on the shared session that ends before CONNACK - the CONNECT cannot be written, or
+// the broker closes the connection without answering. Nothing was resumed, so nothing recorded in the session may change.
+func (s *c10w) failedAttempt(writeFails bool) {
+	s.newClient()
+	s.cidx = len(s.n.conns)
+	cl := s.c
+	c := cfg(s.n, false)
+	c.AlwaysAnnounceOnPublish = s.pr.Early
+	s.n.failFirstWrite = writeFails
+	call("Client.Connect", func() error { _, err := cl.Connect(c); return err })
+	s.n.failFirstWrite = false
+	if cn := s.conn(); cn != nil {
+		cn.take()
+		if cn.open() {
+			cn.B.Close()
+		}
+	}
+	vrt.Quiesce()
+	if cn := s.conn(); cn != nil {
+		cn.take()
+	}
+}
+
+func (s *c10w) connect() bool {
+	s.newClient()
 	s.cidx = len(s.n.conns)
 	cl := s.c
 	c := cfg(s.n, false)
@@ -249,6 +278,9 @@ func c10(x *explore.X, pr c10params) {
 		var evs []string
 		if !s.connected() {
 			evs = append(evs, "reconnect")
+			if pr.Attempts {
+				evs = append(evs, "attempt-connect-write-fails", "attempt-closed-before-connack")
+			}
 		} else {
 			for id := packet.ID(1); id <= packet.ID(pr.IDs); id++ {
 				h := s.open[id]
@@ -289,6 +321,12 @@ func c10(x *explore.X, pr c10params) {
 				return
 			}
 			x.Note("resume")
+		case "attempt-connect-write-fails":
+			s.failedAttempt(true)
+			x.Note("failed-attempt")
+		case "attempt-closed-before-connack":
+			s.failedAttempt(false)
+			x.Note("failed-attempt")
 		case "publish-new":
 			s.nmsg++
 			h := &inflight{id: id, tag: fmt.Sprintf("m%d", s.nmsg), qos: packet.QOS(q)}
@@ -381,16 +419,18 @@ func runC10(r *report.Report) {
 	}
 	cfgs := []c{{"default-2ids", c10params{Depth: 7, IDs: 2, QOS: []int{1, 2}, Faults: true}, 0}, {"default-reject", c10params{Depth: 6, IDs: 1, QOS: []int{0, 1, 2}, Reject: true, Faults: true}, 0},
 		{"early-mode", c10params{Depth: 6, IDs: 1, QOS: []int{1, 2}, Early: true, Reject: true, Faults: true}, 0}, {"default-3ids", c10params{Depth: 6, IDs: 3, QOS: []int{2}}, 0},
-		{"default-reordered", c10params{Depth: 5, IDs: 1, QOS: []int{1, 2}, Faults: true}, 1}}
+		{"default-reordered", c10params{Depth: 5, IDs: 1, QOS: []int{1, 2}, Faults: true}, 1},
+		{"default-failed-attempts", c10params{Depth: 7, IDs: 1, QOS: []int{1, 2}, Attempts: true}, 0}}
 	if r.Tier == "thorough" {
 		cfgs = []c{{"default-2ids", c10params{Depth: 9, IDs: 2, QOS: []int{0, 1, 2}, Faults: true}, 0}, {"default-reject", c10params{Depth: 8, IDs: 2, QOS: []int{0, 1, 2}, Reject: true, Faults: true}, 0},
 			{"early-mode", c10params{Depth: 8, IDs: 2, QOS: []int{1, 2}, Early: true, Reject: true, Faults: true}, 0}, {"default-3ids", c10params{Depth: 8, IDs: 3, QOS: []int{1, 2}}, 0},
-			{"default-reordered", c10params{Depth: 6, IDs: 2, QOS: []int{1, 2}, Faults: true}, 1}, {"default-reordered2", c10params{Depth: 5, IDs: 1, QOS: []int{2}, Reject: true}, 2}}
+			{"default-reordered", c10params{Depth: 6, IDs: 2, QOS: []int{1, 2}, Faults: true}, 1}, {"default-reordered2", c10params{Depth: 5, IDs: 1, QOS: []int{2}, Reject: true}, 2},
+			{"default-failed-attempts", c10params{Depth: 9, IDs: 2, QOS: []int{1, 2}, Attempts: true, Faults: true}, 0}}
 	}
 	for _, cf := range cfgs {
 		st := explore.Explore(explore.Config{Harness: "C10.hist", Params: mk(cf.p), Bound: cf.bound, Workers: report.Workers(), Deadline: r.Deadline()})
-		r.AddExploration(cf.name, "history", fmt.Sprintf("all broker scripts of depth %d over %d packet ids, qos %v, announce-on-publish %v, rejecting callback %v, client write faults %v, delay bound %d", cf.p.Depth, cf.p.IDs, cf.p.QOS, cf.p.Early, cf.p.Reject, cf.p.Faults, cf.bound), st,
-			"one execution = one broker script incl. the callback's answers; clauses at every quiescence; non-trivial = fault, retransmission, resume and rejection events (counted)", "fault", "retransmission", "resume", "rejected")
+		r.AddExploration(cf.name, "history", fmt.Sprintf("all broker scripts of depth %d over %d packet ids, qos %v, announce-on-publish %v, rejecting callback %v, client write faults %v, connection attempts ending before CONNACK %v, delay bound %d", cf.p.Depth, cf.p.IDs, cf.p.QOS, cf.p.Early, cf.p.Reject, cf.p.Faults, cf.p.Attempts, cf.bound), st,
+			"one execution = one broker script incl. the callback's answers; clauses at every quiescence; non-trivial = fault, retransmission, resume and rejection events (counted)", "fault", "retransmission", "resume", "rejected", "failed-attempt")
 	}
 	// the closed system: this client against the real broker (package h/e2e) - also the conformance check of the scripted broker above
 	de := 5
